@@ -131,7 +131,7 @@ def Proj.toState (p : Proj) (ghost : State) : State :=
     minted := fun pr => match p.maps.find? (fun x => x.1 = pr) with | some x => x.2.2.1 | none => 0,
     vaultIds := fun pr => match p.maps.find? (fun x => x.1 = pr) with | some x => x.2.2.2 | none => [],
     nextVault := p.nv, nextStable := p.ns, length := p.len,
-    unsolicited := ghost.unsolicited, extSupply := ghost.extSupply }
+    unsolicited := ghost.unsolicited, extSupply := ghost.extSupply, redeem := ghost.redeem }
 
 def overlay (l : List (Nat × Nat × Int)) (f : Nat → Nat → Int) : Nat → Nat → Int := fun a d =>
   match l.find? (fun x => x.1 = a ∧ x.2.1 = d) with
